@@ -176,7 +176,13 @@ CHECKS.append({
              "proved (stated in Props/C02.v as what C02_full still lacks): a BOOL member listed before a visible member covering its byte, hidden "
              "BOOL members, BYTE/WORD/LWORD members, strings whose LEN/DATA are not at offsets 0/4; path resolution and request parsing enter as hypotheses (C09/C03). Those "
              "are exercised on the implementation by the oracle on every run: real LogixDriver.write against the live target, memory compared "
-             "byte for byte with ref_write, every other tag unchanged, one executed write per request, read-back."),
+             "byte for byte with ref_write, every other tag unchanged, one executed write per request, read-back. Extension: C02_write_correct_element / C02_write_correct_slice1 (+ four instances with the concrete type field): one element "
+             "addressed through an ARRAY class (arr[i], udts[i] := dict, strs[i], udt.arr[j], udts[i].inner[k]) and the n = 1 boundary ...{1} with a list "
+             "of any length >= 1 - encode_value = Ok(d,1), the strict write service accepts, the memory left IS the reference memory, exactly one "
+             "executed write. C02_full_refuted + C02_guard + C02_guarded: the full statement fails only by convention on a self-contradictory dict "
+             "(a BOOL listed before the visible host it overlays, given a bit that contradicts the host value: model and real driver store members then "
+             "bits, the reference stores in template order; no memory could satisfy both, the real driver's frames equal the model's, not a finding). "
+             "Histories now include two controllers in one process holding the same project under permuted symbol instance ids."),
     "note": COMMON_NOTE + " C02: closed under the global context (coqchk: no axioms). REAL rounding enters as a hypothesis.",
     "technique": "Coq proof (bitwise reasoning, induction over templates/fragments; client model composed with the reference target) + correspondence of frames and results + byte-for-byte memory oracle through the live target",
     "design_ref": "DESIGN.md section 7, C02",
@@ -284,7 +290,13 @@ CHECKS.append({
              "BOOL-array forms (C01_tags_hold, C01_single_segment_holds), by symbolic or instance addressing. C01_paths_hold: the same conclusion for structured requests [Program:P.]tag[i..].m[j..]...[.bit][{n}] of any tag "
              "type and scope (three-way walk reference / target / client); C01_strings_hold: the conclusion for every list of request STRINGS "
              "passing the computable predicate plain_request (no resolution hypothesis left); the strings outside it are listed with a "
-             "vm_compute Example each (other letter case, > 4300-digit index, 256-char symbolic name, x[i] on a scalar DWORD). C01_full is refuted by one witness replayed on the real driver (element count >= 65536 does not fit the UINT "
+             "vm_compute Example each (other letter case, > 4300-digit index, 256-char symbolic name, x[i] on a scalar DWORD). "
+             "C01_resolution_grammar_holds: Expect.parse_request is INVERTED on every string (ref_core keeps the digit texts; parse = Some r implies the "
+             "rendered core is the string, leading zeros included); C01_resolution_sem_holds / C01_resolution_strings_hold: resolution soundness and the "
+             "guarded statement for every request string inside the project-side predicate sem_ok (nothing about how the string is spelled); "
+             "C01_instance_paths_hold: in the target the class-0x6B/instance pair denotes the tag whatever member / index segments follow, the byte-level "
+             "instance path and symbolic path resolve alike, and the driver emits the instance form exactly when by_instance holds (member and Program: "
+             "requests are always symbolic). C01_full is refuted by one witness replayed on the real driver (element count >= 65536 does not fit the UINT "
              "field; known finding) and proved under that guard given resolution soundness. Tie: byte-for-byte request frames and Tags, model vs "
              "real LogixDriver.read against the live target; oracle: every returned Tag vs ref_read on random projects, both connection sizes, "
              "fragment policies, size sweeps around the connection size, Micro800."),
@@ -323,7 +335,12 @@ CHECKS.append({
              "file, type, element, sub-element and size = element size x count; masks 2^bit or 0xFFFF), read_correct, write_then_read with "
              "ref_write_frame (other files untouched, exactly count elements, a bit write changes one bit), rejection of unsupported letters and "
              "out-of-range or over-long file / element / bit numbers. Tie: correspondence on ~34k parse strings / requests / scripted replies "
-             "(grammar + single-character edits + affixes); oracle: real SLCDriver.read/write against the extracted target."),
+             "(grammar + single-character edits + affixes); oracle: real SLCDriver.read/write against the extracted target. "
+             "Extension (beyond the property text, model coverage): C18_dir_roundtrip / C18_dir_reads_tile over coq/Model/SlcDir.v "
+             "(_get_sys0_info, _parse_file0, _read_whole_file_directory, directory-size and processor-type requests) against the independent "
+             "directory-image encoder coq/Spec/SlcDirSpec.v: parse_file0 (encode_dir fs) = dir_view fs for every well-formed directory of every "
+             "processor family, and the directory reads tile the image for every size and even chunk (induction); tied by ~4400 correspondence cases "
+             "on the real SLCDriver methods (counts only, no property verdict depends on it)."),
     "note": COMMON_NOTE + " C18: closed under the global context. bytes values and the ST/A string codecs are not modelled; F values are binary32 bit patterns (NaN excluded); wrong-but-in-range I/O file numbers and affix rejection are checked by Example + correspondence, not by a general theorem.",
     "technique": "Coq proof (regex-matcher lemmas, parser soundness over all spellings, refinement to a data-table model) + model/implementation correspondence and SLC target oracle",
     "design_ref": "DESIGN.md section 7, C18",
